@@ -24,21 +24,42 @@ def d4(ctx, prog, base, bl, fc, fc_body):
     the final hook appends iff the bookkeeping says traces were processed since the last point."""
     COUNT, REF, STEP = 'COUNT', 'REF', 'STEP'
     book = None
+    from .. import inline
+    import copy
+    bl = inline.inlined(prog, bl, skip={'_compute_convergence_traces', '_final_compute', '_batch_loop_compute'})
+    fc_i = inline.inlined(prog, fc, skip={'_compute_convergence_traces', '_final_compute', '_batch_loop_compute'})
+    fc_body = [s_ for s_ in fc_i.node.body if not (isinstance(s_, ast.Expr) and isinstance(s_.value, ast.Constant))]
+    # single-assignment locals of the hook are expanded into their definitions (aliases of the bookkeeping list, named counts)
+    stores_ = {}
+    for n_ in ast.walk(bl.node):
+        if isinstance(n_, ast.Name) and isinstance(n_.ctx, ast.Store):
+            stores_[n_.id] = stores_.get(n_.id, 0) + 1
+    ldefs = {s_.targets[0].id: s_.value for s_ in ast.walk(bl.node) if isinstance(s_, ast.Assign) and len(s_.targets) == 1 and isinstance(s_.targets[0], ast.Name)
+             and stores_.get(s_.targets[0].id) == 1}
+
+    class Exp(ast.NodeTransformer):
+        def visit_Name(self, n):
+            if isinstance(n.ctx, ast.Load) and n.id in ldefs:
+                return self.visit(copy.deepcopy(ldefs[n.id]))
+            return n
+
+    def expand(e):
+        return Exp().visit(copy.deepcopy(e))
     # the bookkeeping attribute: the one appended with the processed count
-    apps = [c for c in ast.walk(bl.node) if isinstance(c, ast.Call) and isinstance(c.func, ast.Attribute) and c.func.attr == 'append' and self_attr(c.func.value)
-            and len(c.args) == 1 and norm(c.args[0]) == 'self.processed_traces']
+    apps = [c for c in ast.walk(bl.node) if isinstance(c, ast.Call) and isinstance(c.func, ast.Attribute) and c.func.attr == 'append' and self_attr(expand(c.func.value))
+            and len(c.args) == 1 and norm(expand(c.args[0])) == 'self.processed_traces']
     key = f'{bl.key}::spacing'
     if len(apps) != 1:
         ctx.undecided('C08-D4', key, 'the per-batch record of the processed count (append of self.processed_traces) was not found', bl.where())
         return
-    book = self_attr(apps[0].func.value)
+    book = self_attr(expand(apps[0].func.value))
     pm = astutil.parents(bl.node)
     ga = [(norm(t), pol) for t, pol in astutil.guards(apps[0], pm, bl.node)]
     ctx.check(ga == [('self.convergence_step', True)], 'C08-D4', f'{key} record', f'the processed count is recorded under the condition {ga}, not for every batch when a convergence step is set',
               'count recorded after every batch when a convergence step is set', bl.where(apps[0]))
 
     def rename(e):
-        a = astutil.affine(e)
+        a = astutil.affine(expand(e))
         if a is None:
             return None
         out = {}
@@ -51,11 +72,12 @@ def d4(ctx, prog, base, bl, fc, fc_body):
         ctx.undecided('C08-D4', key, f'{len(calls)} emission sites in the batch hook', bl.where())
         return
     g = astutil.guards(calls[0], pm, bl.node)
-    cmp_ = [t for t, pol in g if pol and isinstance(t, ast.Compare) and len(t.ops) == 1]
+    cmp_ = [t for t, pol in g if pol and isinstance(expand(t), ast.Compare) and len(expand(t).ops) == 1]
     if len(cmp_) != 1:
         ctx.undecided('C08-D4', key, 'emission guard not a single comparison', bl.where(calls[0]))
         return
-    t = cmp_[0]
+    t0 = cmp_[0]
+    t = expand(t0)
     diff = rename(ast.BinOp(t.left, ast.Sub(), t.comparators[0]))
     want = {COUNT: 1, REF: -1, STEP: -1}
     op = type(t.ops[0])
@@ -66,7 +88,7 @@ def d4(ctx, prog, base, bl, fc, fc_body):
         ctx.check(ok, 'C08-D4', f'{key} guard', f'a point is taken when `{norm(t)}`: not "processed count - count at the last point >= step"',
                   f'point taken when `{norm(t)}` (count - reference >= step)', bl.where(calls[0]))
     # the reset in the same branch
-    branch = next(par for par, field in astutil.enclosing(calls[0], pm, bl.node) if isinstance(par, ast.If) and par.test is t)
+    branch = next(par for par, field in astutil.enclosing(calls[0], pm, bl.node) if isinstance(par, ast.If) and par.test is t0)
     resets = [s_ for s_ in ast.walk(branch) if isinstance(s_, ast.Assign) and self_attr(s_.targets[0]) == book and isinstance(s_.targets[0], ast.Attribute)]
     if len(resets) != 1 or not (isinstance(resets[0].value, ast.List) and len(resets[0].value.elts) == 1):
         ctx.undecided('C08-D4', f'{key} reference', 'the reference is not reset by one assignment of a one-element list in the emission branch', bl.where(calls[0]))
